@@ -34,6 +34,11 @@ class Header:
         self.opaque = opaque
 
 
+ATTR_INT_BOUNDS = [0, 1, -1, -2, 126, 127, 128, 129, -126, -127, -128, -129, 255, 256, 32766, 32767, 32768, 32769,
+                   -32766, -32767, -32768, -32769, 65535, 65536, 2147483647, -2147483647, -2147483648]
+ATTR_UINT_BOUNDS = [0, 1, 127, 128, 255, 256, 32767, 32768, 65535, 65536, 2147483647, 2147483648, 4294967295]
+
+
 def attr_value(rng):
     """(encoding, canonical text) of a device attribute value"""
     t = rng.choice([1, 2, 3, 4, 5, 6, 7, 254, 255])
@@ -605,6 +610,13 @@ class C09(Prop):
         for _ in range(60 if quick else 1500):
             out.append(self.encode_case(rng, sid()))
 
+        # 7b. device attributes: every width boundary of the signed / unsigned integer encodings, both signs
+        #     (seeded change C09_c: +128 and +32768 written in too narrow an encoding)
+        for x in ATTR_INT_BOUNDS:
+            out.append(self.encode_attr_case(rng, sid(), rng.below(16), force=("int", x)))
+        for x in ATTR_UINT_BOUNDS:
+            out.append(self.encode_attr_case(rng, sid(), rng.below(16), force=("uint", x)))
+
         # 8. the outstation's RangeWriter / EventWriter through the production Database, re-parsed
         #    (implementation only: the writers are modelled by the db engine, the oracle checks the listing)
         for _ in range(40 if quick else 1500):
@@ -867,16 +879,15 @@ class C09(Prop):
                 meta = {"expect": "encode", "bytes": hexs(data), "lines": lines + ["end"]}
         return Case(s, script_text(s, "app", {"cap": cap}, [tuple(toks)]), {"kind": "encode-" + kind, "ops": [meta]})
 
-    def encode_attr_case(self, rng, s, seq):
+    def encode_attr_case(self, rng, s, seq, force=None):
         """HeaderWriter::write_attribute: whatever length the writer picks, the value must come back"""
         st, var = rng.below(256), rng.choice(ATTR_VARS + [2, 100])
-        ty = rng.choice(["int", "int", "int", "uint", "vstr", "ostr", "bstr", "f32", "f64", "time"])
+        ty = force[0] if force else rng.choice(["int", "int", "int", "uint", "vstr", "ostr", "bstr", "f32", "f64", "time"])
         if ty == "int":
-            x = rng.choice([0, 1, -1, -2, 126, 127, 128, -127, -128, -129, 255, 32766, 32767, -32768, -32769, 2147483647, -2147483648,
-                            rng.range(-200, 200), rng.range(-40000, 40000)])
+            x = force[1] if force else rng.choice(ATTR_INT_BOUNDS + [rng.range(-200, 200), rng.range(-40000, 40000)])
             value, shown = str(x), "int %d" % (x % (1 << 32))
         elif ty == "uint":
-            x = rng.choice([0, 255, 256, 65535, 65536, 4294967295, rng.below(1 << 32)])
+            x = force[1] if force else rng.choice(ATTR_UINT_BOUNDS + [rng.below(1 << 32)])
             value, shown = str(x), "uint %d" % x
         elif ty in ("vstr", "ostr", "bstr"):
             b = utf8_string(rng) if ty == "vstr" else rng.bytes(rng.choice([0, 1, 7, 255]))
